@@ -36,7 +36,7 @@ for p in props:
             "engine": "xv",
             "level_claimed": {
                 "category": "other",
-                "text": meta["text"],
+                "text": meta["text"] + ((" " + meta["more"]) if meta.get("more") else ""),
                 "design_ref": f"DESIGN.md section 3, {pid}",
             },
             "level_note": meta["note"],
